@@ -10,7 +10,7 @@ A positive entry `(t, e)` of `probMatrix W locks` implies
 -/
 namespace Infretis.Perm
 
-theorem keep_getD_rank {α : Type} (d : α) (locks : List Bool) (xs : List α) (i : Nat)
+theorem keep_getD_rank_c03 {α : Type} (d : α) (locks : List Bool) (xs : List α) (i : Nat)
     (h : locks[i]? = some false) :
     (keep locks xs).getD (rank locks i) d = xs.getD i d := by
   induction locks generalizing xs i with
@@ -41,12 +41,12 @@ theorem idle_entry (W : Mat) (locks : List Bool) (t e : Nat) (hW : W.length = lo
       rw [keep_length locks W hW]; exact rank_lt locks t ht
     rw [List.getD_eq_getElem?_getD, List.getElem?_map, List.getElem?_eq_getElem hr]
     simp only [Option.map_some, Option.getD_some]
-    have := keep_getD_rank ([] : Row) locks W t ht
+    have := keep_getD_rank_c03 ([] : Row) locks W t ht
     rw [List.getD_eq_getElem?_getD, List.getElem?_eq_getElem hr] at this
     simp only [Option.getD_some] at this
     rw [this]
   rw [h1]
-  exact keep_getD_rank 0 locks _ e he
+  exact keep_getD_rank_c03 0 locks _ e he
 
 /-- entries outside the matrix read as 0 -/
 theorem probMatrix_length (W : Mat) (locks : List Bool) (hW : W.length = locks.length) :
